@@ -125,7 +125,8 @@ def run(chk):
         # topology names are arbitrary labels (strings incl. the empty one, ints incl. 0); motif ids include 0
         rows = [[rng.randrange(n), rng.randrange(n), rng.choice(["a", "b", "2-clique", "3-clique", "", 0, 1]), rng.randrange(0, k + 1)]
                 for _ in range(k)]
-        cases.append({"kind": "random", "jds": [(rng.randrange(4), rng.randrange(3)) for _ in range(n)], "rows": rows})
+        slots = [2, 2, 1, 3][i % 4]       # the number of joint-degree slots is independent of the number of distinct edge names
+        cases.append({"kind": "random", "jds": [tuple(rng.randrange(4) for _ in range(slots)) for _ in range(n)], "rows": rows})
     # edge lists the generators really produce (30-60 % zero-degree mass)
     for i in range(400 if thorough else 80):
         cname = rng.choice(["f_edge", "f_edge_tri", "f_mix4", "f_k4_cyc5", "c_repo", "c_hub"])
